@@ -195,7 +195,7 @@ impl Property for C18 {
     }
     fn assumptions() -> Vec<String> {
         vec![
-            "user_data values are unique within a scenario (duplicates make 'its user data' ambiguous)".into(),
+            "user_data values are unique within a scenario, except that now and then one fsync is pushed twice under one tag (identical entries without buffer or data result)".into(),
             "effects are attributed in observed CQE order: concurrent in-flight operations may complete in any order".into(),
             "an operation whose file was closed before its CQE is reaped completes with -EBADF (documented divergence of the crate) — accepted".into(),
             "all fs fault probabilities are 0".into(),
@@ -225,6 +225,8 @@ impl Property for C18 {
         let n = rng.usize(3, 22);
         let mut ud = 0u64;
         let mut pushed: Vec<u64> = Vec::new();
+        let mut dup_tags: std::collections::BTreeSet<u64> = Default::default();
+        let mut dup_cancelled: std::collections::BTreeSet<u64> = Default::default();
         let mut tag = 0u32;
         for _ in 0..n {
             let ring = rng.below(nr as u64) as usize;
@@ -239,7 +241,15 @@ impl Property for C18 {
                             SqeKind::Write { file, off: rng.below(40), len: rng.range(0, 24) as u32, tag }
                         }
                         2 => SqeKind::Fsync { file },
-                        _ => SqeKind::Cancel { target: if pushed.is_empty() || rng.chance(1, 6) { 9999 } else { *rng.pick(&pushed) } },
+                        _ => {
+                            let mut target = if pushed.is_empty() || rng.chance(1, 6) { 9999 } else { *rng.pick(&pushed) };
+                            // (which of two entries under one tag a cancel hits is the ring's business: a tag
+                            // that is shared is cancelled at most once, so the outcome stays attributable)
+                            if dup_tags.contains(&target) && !dup_cancelled.insert(target) {
+                                target = 9999;
+                            }
+                            SqeKind::Cancel { target }
+                        }
                     };
                     pushed.push(ud);
                     // FIXED_FILE=1 IO_DRAIN=2 IO_LINK=4 IO_HARDLINK=8 ASYNC=16 BUFFER_SELECT=32; ASYNC alone is supported
@@ -249,6 +259,15 @@ impl Property for C18 {
                     } else {
                         0
                     };
+                    // now and then the same fsync is pushed twice under one user_data tag (both entries must
+                    // complete; a cancel of the tag takes out exactly one of them). Only fsyncs: they have no
+                    // buffer and no result that would have to be attributed to one of the two entries.
+                    if bad_flags == 0 && rng.chance(1, 6) {
+                        if let SqeKind::Fsync { .. } = &kind {
+                            dup_tags.insert(ud);
+                            ops.push(Op::Push { ring, ud, kind: kind.clone(), bad_flags: 0 });
+                        }
+                    }
                     ops.push(Op::Push { ring, ud, kind, bad_flags });
                 }
                 1 => ops.push(Op::Submit { ring }),
@@ -529,7 +548,8 @@ fn run_inner(sc: &Scenario, log: &mut Log, rep: &mut Report) -> Option<Violation
                         SqeKind::Cancel { target } => {
                             had_cancel_or_crash = true;
                             // found iff the target still has an unreaped completion on this ring
-                            let found = rm.out.iter().position(|o| o.ud == *target);
+                            // (with several entries under one tag a cancel takes out one that is still scheduled)
+                            let found = rm.out.iter().position(|o| o.ud == *target && o.fixed.is_none()).or_else(|| rm.out.iter().position(|o| o.ud == *target));
                             let res = if let Some(p) = found {
                                 let t = &mut rm.out[p];
                                 t.fixed = Some(ECANCELED);
@@ -621,7 +641,13 @@ fn run_inner(sc: &Scenario, log: &mut Log, rep: &mut Report) -> Option<Violation
                     return Some(Violation::new("CompletionEarly", format!("op #{i}: at {now_ns}ns {visible} completions visible on ring {ring} but only {may} operations have reached submit + min latency")));
                 }
                 for (ud, result) in &got[1..] {
-                    let Some(pos) = rm.out.iter().position(|o| o.ud == *ud) else {
+                    // (several entries may share a tag: take the one this completion can belong to)
+                    let cands: Vec<usize> = rm.out.iter().enumerate().filter(|(_, o)| o.ud == *ud).map(|(p, _)| p).collect();
+                    if cands.len() >= 2 {
+                        rep.probes.inc("completion_of_an_entry_sharing_its_user_data");
+                    }
+                    let pick = cands.iter().copied().find(|p| rm.out[*p].fixed == Some(*result)).or_else(|| cands.iter().copied().find(|p| rm.out[*p].fixed.is_none() && *result != ECANCELED)).or_else(|| cands.first().copied());
+                    let Some(pos) = pick else {
                         return Some(Violation::new("UnknownOrDuplicateCqe", format!("op #{i}: CQE user_data={ud} result={result} matches no outstanding submission (second completion or never submitted)")));
                     };
                     let o = rm.out.remove(pos);
